@@ -457,6 +457,16 @@ def replay_axes(cex):
                 continue
             if not ok:
                 bad.append({"rows": list(idx), "z_given": z.tolist(), "z_of_result": np.round(m.z, 6).tolist(), "y_given": y.tolist(), "y_of_result": np.round(m.y, 6).tolist()})
+    # orientations close to (but not at) a half turn: the axes must come back to 1e-6, not be snapped to the exact half turn
+    from scipy.spatial.transform import Rotation
+
+    for delta in (5e-4, 1e-4, 2e-5):
+        for ax in ([1.0, 0, 0], [0, 0, 1.0], [0, 1.0, 0], [0.6, 0.0, 0.8], [0.0, 0.6, -0.8]):
+            m0 = Molecules(np.zeros((2, 3)), Rotation.from_rotvec(np.array([ax, ax]) * np.array([[np.pi - delta], [np.pi + delta]])))
+            m = Molecules.from_axes(np.zeros((2, 3)), z=m0.z, y=m0.y)
+            err = float(max(np.abs(m.z - m0.z).max(), np.abs(m.y - m0.y).max(), np.abs(m.x - m0.x).max()))
+            if err > 1e-6:
+                bad.append({"near-half-turn": {"axis": ax, "delta": delta}, "max_axis_error": err})
     return len(bad) > 0, {"n_wrong_batches": len(bad), "examples": bad[:3]}
 
 
